@@ -2003,6 +2003,7 @@ def stakeTail (s : State) (k : Nat) (amt : Int) : Option State :=
     | none => none
     | some s1 =>
       let v1 := { v with tokens := v.tokens + amt, status := 2 }
+      if !v1.jailed && !Arith.isInt64 (power v1.tokens) then none else
       let s2 := setStaked (setVal s1 a v1) a v1
       some (if (aget s2.sign a).isSome then s2
             else { s2 with sign := aset s2.sign a { start := s.height, offset := 0, missed := 0, jailedUntil := 0, tomb := false } })
@@ -2033,6 +2034,8 @@ theorem stakeTail_shape {s s' : State} {k : Nat} {amt : Int} (h : stakeTail s k 
   split at h
   · simp at h
   rename_i s1 hs1
+  split at h
+  · simp at h
   obtain ⟨b, hb⟩ := send_eq hs1
   refine ⟨by omega, ?_⟩
   simp only [Option.some.injEq] at h
@@ -2126,12 +2129,25 @@ theorem handle_unjail_shape {s s' : State} {a : Addr} (h : handle s (.unjail a) 
   split at h
   · simp at h
   rename_i hju
+  split at h
+  · simp at h
   simp only [Option.some.injEq] at h
   simp only [Bool.or_eq_true, beq_iff_eq, decide_eq_true_eq, not_or, Int.not_lt] at hju
   refine ⟨v, si, hv, hsi, by simpa using hj, by omega, by simpa using htomb, hju.1, hju.2, ?_⟩
   rw [← h]
   simp only [setStaked, setVal]
   by_cases h2 : v.status = 2 <;> simp [h2]
+
+/-- a successful unjail of a staked validator passed the power-index key guard -/
+theorem handle_unjail_int64 {s s' : State} {a : Addr} {v : Val} (h : handle s (.unjail a) = some s')
+    (hv : aget s.vals a = some v) (hst : v.status = 2) : Arith.isInt64 (power v.tokens) = true := by
+  simp only [handle, hv] at h
+  repeat' (split at h)
+  all_goals first
+    | (simp at h; done)
+    | (rename_i hg
+       simp only [hst, beq_self_eq_true, Bool.true_and, Bool.not_eq_true', Bool.not_eq_false] at hg
+       simpa using hg)
 
 theorem handle_unjail_none_of {s : State} {a : Addr}
     (h : ∀ v si, aget s.vals a = some v → aget s.sign a = some si → si.tomb = true) :
@@ -3193,7 +3209,10 @@ theorem step_core_prev (s : State) (op : Op) (r : State × List (Addr × Int) ×
     simp only [step, Option.some.injEq] at hs
     subst hs
     obtain ⟨k1, k2⟩ := runTx_core h.core mode t
-    exact ⟨k1, h.prevOK.grow k2⟩
+    show Core (if mode == .deliver then _ else _) ∧ PrevOK (if mode == .deliver then _ else _)
+    split
+    · exact ⟨k1.of_eq rfl rfl rfl, h.prevOK.grow ⟨k2.prev, k2.dom⟩⟩
+    · exact ⟨k1, h.prevOK.grow k2⟩
 
 end B
 open B
